@@ -7,7 +7,8 @@ def setup(register, COMMON_TB):
     register(
         "C04", coq="C04", coq_extra=["gen", "ngx"], pkg="./internal/mode/static/", test="TestVerifC04", gen=gen.gen_c03,
         extra=[dict(pkg="./internal/mode/static/", test="TestVerifTmpl"),
-               dict(pkg="./internal/mode/static/nginx/config/validation/", test="TestVerifValid")],
+               dict(pkg="./internal/mode/static/nginx/config/validation/", test="TestVerifValid"),
+               dict(pkg="./cmd/crossplane/", test="TestVerifLexCross04", cwd="tests/framework/crossplane")],
         rule="one string leaf of a rich valid state (Gateway, HTTPRoute/GRPCRoute matches and filters, NginxProxy, ClientSettings/Observability/"
              "UpstreamSettings policies, BackendTLSPolicy: 56 leaves) is set to its valid value followed or interrupted by one of 19 hostile payloads "
              "(every payload carries the marker zqx); the real pipeline is run on the benign and on the hostile state and both outputs are parsed "
@@ -15,7 +16,7 @@ def setup(register, COMMON_TB):
              "validators of nginx/config/validation on all words up to length 3 over eleven tokenizer-relevant characters and on 4000 (thorough 60000) strings built "
              "around valid cores; the model's verdict must equal the real one, and every ACCEPTED value must be absorbed whole by the position class of its "
              "validator (unquoted argument / double-quoted argument / plain)"
-             " Second part (templates, evaluated by ngx/TmplCheck.v): every execution of every text/template of the generator inside the real pipeline is recorded (wrapper installed around the package variables); the model of the template engine (ngx/Tmpl.v) is run on the parse tree regenerated from the source (gen/Templates.v) and on the data obtained by reflection, and must reproduce the text byte for byte; user-controlled string leaves are holes (marked: the marker-carrying benign value of every leaf; spaced: one leaf followed by a space and a word; states: generated states, every plain string leaf of unnamed type that no template constant equals); the symbolic tokenizer run over the chunks must not hit a lexical error, a hole that needs quoting outside quotes, a hole in directive-name position, or an unfinished token",
+             " Second part (templates, evaluated by ngx/TmplCheck.v): every execution of every text/template of the generator inside the real pipeline is recorded (wrapper installed around the package variables); the model of the template engine (ngx/Tmpl.v) is run on the parse tree regenerated from the source (gen/Templates.v) and on the data obtained by reflection, and must reproduce the text byte for byte; user-controlled string leaves are holes (marked: the marker-carrying benign value of every leaf; spaced: one leaf followed by a space and a word; states: generated states, every plain string leaf of unnamed type that no template constant equals); the symbolic tokenizer run over the chunks must not hit a lexical error, a hole that needs quoting outside quotes, a hole in directive-name position, or an unfinished token Further part (TestVerifLexCross04, evaluated by ngx/LexCross.v): the files of the first 60 (quick) / 600 (thorough) hostile runs tokenized by nginx-go-crossplane v0.4.71 = the tokens of ngx/Lexer.v",
         trusted_base=COMMON_TB + [
             "validators part: gen/Validators.v is regenerated from the compiled regexps of nginx/config/validation (translator harness/verifutil/regex.go: "
             "byte-level full match; it stops on case folding, on inner anchors and on classes that contain some but not all non-ASCII runes; the number of "
